@@ -68,6 +68,7 @@ fn shaped(rng: &mut Rng, names: &[String]) -> Expr {
     }
 }
 
+const TAG_SHAPES: bool = false;
 fn main() {
     quiet_panics();
     let mut out = Out::new();
@@ -82,8 +83,8 @@ fn main() {
             let mut distinct = std::collections::HashSet::new();
             for gi in 0..ngram {
                 // syntactic: guarded grammars plus shaped / unguarded rules (with rule cycles, zero counts)
-                let cfg = GenCfg { extras: EXTRAS, guarded: true, stack_ops: true, tags: EXTRAS && gi % 4 == 1, max_rules: 4, max_depth: 4, builtin_names: false };
-                let mut rules = gen_grammar(&mut rng, &cfg);
+                let cfg = GenCfg { extras: EXTRAS, guarded: true, stack_ops: true, tags: EXTRAS && gi % 4 == 1, max_rules: 4, max_depth: 4, builtin_names: false, tag_shapes: TAG_SHAPES };
+                let mut rules = if gi < 32 { gen_grammar_idiom(&mut rng, &cfg, gi) } else { gen_grammar(&mut rng, &cfg) };
                 let names: Vec<String> = rules.iter().map(|r| r.name.clone()).collect();
                 let k = rng.range(1, 3);
                 for j in 0..k { let e = shaped(&mut rng, &names); let ty = *rng.pick(&[RuleType::Atomic, RuleType::Normal, RuleType::CompoundAtomic, RuleType::Silent]); rules.push(Rule { name: format!("s{}", j), ty, expr: e }); }
@@ -98,8 +99,8 @@ fn main() {
             }
             for gi in 0..nsem {
                 // semantic: guarded grammars only (denotation terminates), all inputs up to len
-                let cfg = GenCfg { extras: EXTRAS, guarded: true, stack_ops: gi % 2 == 0, tags: false, max_rules: 4, max_depth: 4, builtin_names: false };
-                let mut rules = gen_grammar(&mut rng, &cfg);
+                let cfg = GenCfg { extras: EXTRAS, guarded: true, stack_ops: gi % 2 == 0, tags: false, max_rules: 4, max_depth: 4, builtin_names: false, tag_shapes: TAG_SHAPES };
+                let mut rules = if gi < 32 { gen_grammar_idiom(&mut rng, &cfg, gi) } else { gen_grammar(&mut rng, &cfg) };
                 // make sure the rewrites have something to do: sprinkle shaped sub-expressions that keep the grammar guarded
                 if rng.chance(2, 3) { let e = match rng.below(6) { 0 => Expr::Seq(bx(Expr::Seq(bx(s("a")), bx(s("b")))), bx(s("c"))), 1 => Expr::Choice(bx(Expr::Seq(bx(s("a")), bx(s("b")))), bx(Expr::Seq(bx(s("a")), bx(s("c"))))),
                         2 => Expr::Choice(bx(Expr::Seq(bx(s("a")), bx(s("b")))), bx(s("a"))), 3 => Expr::Choice(bx(s("a")), bx(Expr::Seq(bx(s("a")), bx(s("c"))))),
